@@ -169,7 +169,7 @@ PROPS = {
         "title": "Only complete recordings ever bear the .cptv name; crashes leave no debris",
         "level": "fault_enumeration",
         "rule": "Scenarios through the real handleConn + CPTVFileRecorder in a child process (test binary re-executed): S1 one motion recording, S2 two back-to-back, S3 throttle cut, S4 test recording overlapping a motion recording, "
-                "S5 constant recorder on, S6 connection dropped in mid-frame (Stop path), S7 'clear' in mid-recording, S8 test recording and motion recording starting on the same frame (quick: S1,S3,S4,S5,S6,S8). "
+                "S5 constant recorder on, S6 connection dropped in mid-frame (Stop path), S7 'clear' in mid-recording, S8 test recording and motion recording starting on the same frame, S9 throttle cut and restart within one trigger (quick: S1,S3,S4,S5,S6,S8). "
                 "An uncrashed run counts the hook hits H - the file recorder's own hooks (after create, after header, before/after each frame write, before Close, between Close and rename, after rename, abort path) and hook calls inserted by build overlay into a copy of go-cptv's file writer "
                 "(between its three file creations; in Close after flush, header patch, gzip copy, gzip flush/close, buffered flush, before/after closing and deleting the scratch file); then for EVERY n in 0..H the child SIGKILLs itself at hit n. "
                 "Oracles: I1 - every *.cptv decodes header to EOF with the stock reader, checked synchronously at every hook inside the child, by a free-running observer goroutine, and by the parent on the directory as found; "
@@ -270,7 +270,7 @@ PROPS = {
         "rule": "Under -race: real handleConn (2-5 successive connections per repetition, 500 (thorough 3000) uniform-valued frames each, value = f(id), fed at full speed / in bursts / paced) while 1-8 goroutines call "
                 "service.TakeSnapshot / TakeTestRecording / CameraInfo in loops with PRNG pauses, plus one request forced exactly between publication of a new processor and its first frame; GOMAXPROCS in {1,2,4,16}; Gosched/us sleeps at hooks. "
                 "Oracles: (a) every race-detector report (reduced to the unordered pair of top-most repository frames); (b) each returned image is uniform, is a received frame, id >= last frame completed at call time on the current connection, "
-                "id <= last frame fully received at return, never a never-received (all-zero) image; (c) continuous files and motion files equal the reference pipeline's prediction, every other file is a 21-frame test recording, all frames processed (bounded progress). "
+                "id <= last frame fully received at return, never a never-received (all-zero) image, and an image handed out earlier never changes afterwards (each requester re-checks its previous image after its next request); (c) continuous files and motion files equal the reference pipeline's prediction, every other file is a 21-frame test recording, all frames processed (bounded progress). "
                 "A repetition is a case; evidence lists requests per kind and (kind, frame-loop phase) pairs seen.",
         "assumptions": COMMON_ASSUME + ["interleavings are sampled, not enumerated: 'no race observed in K executions', not race freedom", "pre-trigger ring capacity >= 2 (with capacity 1 'previous' and 'current' slot coincide; outside the quantifier over schedules)",
                                         "a watchdog firing is reported as a violation of the bounded-progress restatement only for this job (generous 10-50 min limit for a run of seconds)"],
@@ -278,7 +278,7 @@ PROPS = {
         "level_note": "A porcupine register model would also demand monotonic reads across requests, which the property does not state; the direct interval check is exactly the property and linear with unique ids.",
         "technique": "Go race detector + interval (freshness) checker over a logical-clock event log",
         "jobs": [{"pkg": "recorder-main", "test": "TestVerif_C16", "race": True, "shards": (6, 16), "gomaxprocs": [1, 2, 4, 16, 16, 3], "timeout": (900, 3000), "hang_is_violation": True,
-                  "require": ["snapshots_checked", "requests_TakeSnapshot", "requests_TakeTestRecording", "requests_CameraInfo", "motion_recordings_matched", "test_recordings_found"]}],
+                  "require": ["snapshots_checked", "held_snapshots_rechecked", "requests_TakeSnapshot", "requests_TakeTestRecording", "requests_CameraInfo", "motion_recordings_matched", "test_recordings_found"]}],
     },
     "C17": {
         "title": "Continuous recorder tiles the stream; a test recording is 21 consecutive frames",
